@@ -210,9 +210,12 @@ Definition holds_step (c : cfg) (mut : Z -> mres) (rep : Z -> Z) (tracked : list
       let body := firstn nbody apps in
       let reps := skipn nbody apps in
       let samples := filter (fun x => negb (is_stale (a_val x)) && negb (a_rout x =? 0)) body in
-      let markers := effective_markers [] body in
+      (* every wanted marker was received at the scrape time; every EFFECTIVE marker was wanted
+         (a received marker shadowed by a sample of the same series and timestamp is tolerated) *)
+      let received := filter (fun x => is_stale (a_val x) && negb (a_rout x =? 0)) body in
       let markers_ok (want : list Z) :=
-        forallb (fun x => a_t x =? t) markers && set_eqb (map a_lset markers) want in
+        forallb (fun x => a_t x =? t) received && subset want (map a_lset received)
+        && subset (map a_lset (effective_markers [] body)) want in
       let shape_ok := b_commit last && forallb (fun x => negb (b_commit x)) earlier
                       && (nreports c <=? length apps)%nat in
       let failed_like (up : Z) (scraped added bytes : option Z) (stale : bool) :=
